@@ -416,3 +416,90 @@ func TestC15Trees(t *testing.T) {
 		c15Run(rt, &c15Case{Tree: tree, Text: text, Field: field}, false, fmt.Sprintf("style=%d", styleKind))
 	})
 }
+
+// ---- fixpoint of whole statements with named fields --------------------------------
+
+type c15StmtCase struct {
+	Stmt  *lib.Stmt `json:"stmt"`
+	Query string    `json:"query"`
+}
+
+func init() {
+	registerReplay("c15stmt", func(c *c15StmtCase) string { m, _ := checkC15Stmt(c); return m })
+}
+
+// checkC15Stmt: every expression of an accepted statement (WHERE and select
+// fields, names rendered as `name`) is printed canonically and re-parsed
+// under the same select list; the second rendering must equal the first.
+func checkC15Stmt(c *c15StmtCase) (msg string, nontrivial bool) {
+	q := c.Stmt.Render()
+	c.Query = q
+	lib.SetGlobals(lib.Cfg{Mode: "row", Batch: 32, Cache: true})
+	sel, err := parseSelect(q)
+	if err != nil {
+		return "", false // acceptance is C14's subject
+	}
+	fieldTexts := make([]string, len(sel.Fields))
+	for i, f := range sel.Fields {
+		fieldTexts[i] = f.String()
+		if i < len(c.Stmt.Fields) && c.Stmt.Fields[i].Alias != "" {
+			fieldTexts[i] += " as " + c.Stmt.Fields[i].Alias
+		}
+	}
+	w1 := sel.Where.Expr.String()
+	q2 := "select " + strings.Join(fieldTexts, ", ") + " where " + w1
+	if c.Stmt.Star {
+		q2 = "select * where " + w1
+	}
+	sel2, err := parseSelect(q2)
+	if err != nil {
+		return fmt.Sprintf("statement %q renders canonically as %q, which does not parse: %v", q, q2, err), true
+	}
+	if w2 := sel2.Where.Expr.String(); w2 != w1 {
+		return fmt.Sprintf("WHERE of %q renders as %q; re-parsing that renders %q", q, w1, w2), true
+	}
+	if got, want := engSExpr(sel2.Where.Expr), engSExpr(sel.Where.Expr); got != want {
+		return fmt.Sprintf("WHERE of %q: canonical text %q re-parses to %s, not %s", q, w1, got, want), true
+	}
+	for i := range sel.Fields {
+		if i >= len(sel2.Fields) {
+			return fmt.Sprintf("statement %q: canonical text %q has %d select fields instead of %d", q, q2, len(sel2.Fields), len(sel.Fields)), true
+		}
+		if a, b := sel.Fields[i].String(), sel2.Fields[i].String(); a != b {
+			return fmt.Sprintf("select field %d of %q renders as %q; re-parsing renders %q", i, q, a, b), true
+		}
+	}
+	hasRef := c.Stmt.Where.Has(func(x *lib.Node) bool { return x.K == "ref" })
+	return "", hasRef
+}
+
+func TestC15Statements(t *testing.T) {
+	rapid.Check(t, func(rt *rapid.T) {
+		kind := lib.GenKind(rt)
+		pairs := lib.GenStore(rt, kind, 4)
+		st := lib.GenSelect(rt, kind, pairs, lib.SelOpts{Aliases: true, Aggregate: 1, MinFields: 1})
+		quoteFree := true
+		check := func(n *lib.Node) {
+			n.Walk(func(x *lib.Node) {
+				if (x.K == "str" || x.K == "field") && strings.ContainsAny(x.S, "'\"`") {
+					quoteFree = false
+				}
+			})
+		}
+		check(st.Where)
+		for _, f := range st.Fields {
+			check(f.E)
+		}
+		if !quoteFree {
+			lib.Stats.Label("skipped-quote-in-literal")
+			return
+		}
+		c := &c15StmtCase{Stmt: st}
+		lib.Journal("C15", "c15stmt", c)
+		msg, nt := checkC15Stmt(c)
+		lib.Stats.Case(nt, "stmt|"+c.Query, []string{"statement-fixpoint"}, func() any { return c.Query })
+		if msg != "" {
+			fail(rt, "C15", "c15stmt", msg, c)
+		}
+	})
+}
